@@ -158,6 +158,35 @@ webSocketsCheck (rfbClientPtr cl)
     return TRUE;
 }
 
+/*
+ * TRUE if name is one of the comma-separated elements of the
+ * Sec-WebSocket-Protocol header value sent by the client (RFC 6455, 4.2.1 and
+ * 4.2.2: the server may only select a sub-protocol the client has offered).
+ * Blanks around an element are ignored; the comparison is exact, so an
+ * element that merely contains the name ("superbase64x") does not match.
+ */
+static rfbBool
+webSocketsProtocolOffered(const char *offer, const char *name)
+{
+    size_t nlen = strlen(name);
+
+    while (offer) {
+        const char *end;
+        size_t tlen;
+
+        while (*offer == ' ' || *offer == '\t')
+            offer++;
+        end = strchr(offer, ',');
+        tlen = end ? (size_t)(end - offer) : strlen(offer);
+        while (tlen > 0 && (offer[tlen-1] == ' ' || offer[tlen-1] == '\t'))
+            tlen--;
+        if (tlen == nlen && strncmp(offer, name, nlen) == 0)
+            return TRUE;
+        offer = end ? end + 1 : NULL;
+    }
+    return FALSE;
+}
+
 static rfbBool
 webSocketsHandshake(rfbClientPtr cl, char *scheme)
 {
@@ -294,13 +323,13 @@ webSocketsHandshake(rfbClientPtr cl, char *scheme)
         return FALSE;
     }
 
-    if ((protocol) && (strstr(protocol, "base64"))) {
+    if ((protocol) && (webSocketsProtocolOffered(protocol, "base64"))) {
         rfbLog("  - webSocketsHandshake: using base64 encoding\n");
         base64 = TRUE;
         protocol = "base64";
     } else {
         rfbLog("  - webSocketsHandshake: using binary/raw encoding\n");
-        if ((protocol) && (strstr(protocol, "binary"))) {
+        if ((protocol) && (webSocketsProtocolOffered(protocol, "binary"))) {
             protocol = "binary";
         } else {
             protocol = "";
